@@ -17,7 +17,7 @@ ASSUMPTIONS = ['backend.create_install_data() and Build.get_tests() are stubs re
                'native, non-Windows host']
 OUT = 'list_targets, intro-buildsystem_files.json, agreement with build.ninja (need a real backend and a configured project), benchmarks go through the same code as tests'
 MANIFEST = dict(
-    text='Bounded symbolic relational check of three projections (tests, install plan, build options) between the introspection writers and their consumers. '
+    text='Bounded symbolic relational check of three projections (tests, install plan, build options) between the introspection writers and their consumers, incl. the real Backend.generate_*_install name/path pairs and subproject option values. '
          'Targets and build-system files, and agreement with build.ninja, are outside.',
     note='Partial claim. Trusted: symx engine, z3. Bounds: 1-2 tests with 0-2 arguments of <=2 characters, 1 environment variable, install paths <=2 characters.')
 
